@@ -45,6 +45,9 @@ CORPUS = [
     ("C16-N07", "", "int a;\n#ifndef\nint b;\n#endif\n"),
     ("C16-N11a", "", "typedef struct {\n} mystruct;\ntypedef struct {\n} mystruct;\n"),
     ("C16-N11b", "", "typedef enum { A } E;\ntypedef enum { B } E;\n"),
+    ("C16-N12", "", "#if defined(\n"),
+    ("C16-N13", "", "while(int=)\n"),
+    ("C16-N14", "", "@kernel\nvoid addVectors(union{float;}){@outer  for(int i=0;i<N;i+=BLOCK_SIZE){    @inner\n    for(int j=0; j < BLOCK_SIZE; ++j) {}\n  }\n}\n"),
     ("C16-N10", "", "@kernel void k(int *a) {\n  for (int i = 0; i < 1; ++i; @tile(99999999999, @outer, @inner)) {\n    a[i] = 1;\n  }\n}\n"),
     ("C16-N09", "", "#undef __FILE__\nconst char *f = __FILE__;\n"),
     ("C16-N08", "", "@kernel void k(const int N, float *a) {\n  for (int i = 0; i < N; ++i; @tile(16, @outer, @inner)) {\n    a[i] = OCCA_USING_GPU OCCA_USING_GPU\n  }\n}\n"),
@@ -240,12 +243,13 @@ class Fuzzer:
             return False
         return p.returncode == 0 and os.path.exists(out)
 
-    def campaign(self, corpus, outdir, seeds, secs, extra=()):
+    def campaign(self, corpus, outdir, seeds, secs, extra=(), iters=None):
         procs = []
         for i, sd in enumerate(seeds):
             od = os.path.join(outdir, "w%d" % i)
             os.makedirs(od, exist_ok=True)
-            cmd = [self.bin, "fuzz", "--seed", str(sd), "--corpus", corpus, "--out", od, "--secs", str(secs)] + list(extra)
+            budget = ["--iters", str(iters)] if iters is not None else ["--secs", str(secs)]
+            cmd = [self.bin, "fuzz", "--seed", str(sd), "--corpus", corpus, "--out", od] + budget + list(extra)
             procs.append((od, subprocess.Popen(cmd, stdout=open(os.path.join(od, "log.txt"), "wb"), stderr=subprocess.DEVNULL,
                                                cwd=self.cwd, env=self.env)))
         for od, p in procs:
@@ -371,12 +375,22 @@ def main(argv):
     ck.cov["counters"]["steering_around_division"] = 1 if steer else 0
 
     # 2. the campaign
+    # quick tier: the regression part (seed corpus through all seven translators + canonical inputs above) plus a
+    #   SMALL, MILD campaign: a fixed number of mutants per worker, one small edit each (--mild), so that the tier
+    #   is a regression check whose verdict does not depend on the speed of the machine;
+    # thorough tier: the aggressive, coverage-guided, time-budgeted campaign (the actual bug hunt).
     workers = int(os.environ.get("VERIF_FUZZ_WORKERS", str(min(16, os.cpu_count() or 4))))
-    secs = int(os.environ.get("VERIF_FUZZ_SECS", "60" if ck.tier == "quick" else "1200"))
+    secs = int(os.environ.get("VERIF_FUZZ_SECS", "1200"))
+    iters = None
+    extra = [] if steer else ["--raw"]
+    if ck.tier == "quick" and "VERIF_FUZZ_SECS" not in os.environ:
+        iters = int(os.environ.get("VERIF_FUZZ_ITERS", "12"))
+        extra.append("--mild")
+    ck.cov["counters"]["campaign_mode"] = ("mild, %d mutants per worker" % iters) if iters is not None else ("aggressive, %d s per worker" % secs)
     seeds = [ck.rng.getrandbits(48) for _ in range(workers)]
     outdir = os.path.join(base, "out")
     t0 = time.time()
-    wdirs = fz.campaign(corpus, outdir, seeds, secs, extra=() if steer else ("--raw",))
+    wdirs = fz.campaign(corpus, outdir, seeds, secs, extra=extra, iters=iters)
     ck.cov["counters"]["fuzz_wall_s"] = int(time.time() - t0)
     ck.cov["counters"]["workers"] = workers
     tot = {}
